@@ -126,7 +126,7 @@ def evalOracle (src : Bytes) (seed : Nat) (impl : String) : List String :=
       | none => ["c05-parse"]
       | some st =>
         let isJoin := parsed.1.any fun | .tabular t => tabularHasJoin t | _ => false
-        let tag := if isJoin then "c03" else "c02"
+        let tag := if CompileOracle.nameCapture parsed.1 then "c05-name-capture" else if isJoin then "c03" else "c02"
         let bad := (List.range 4).filterMap fun i =>
           let db := Rel.mkDB (seed + 1000 * i)
           match Rel.interpProgram src db parsed.1 with
@@ -137,7 +137,7 @@ def evalOracle (src : Bytes) (seed : Nat) (impl : String) : List String :=
         match bad with
         | [] => []
         | (i, want, got) :: _ =>
-          [tag ++ "-result-differs db=" ++ toString (seed + 1000 * i) ++ " pipeline:" ++ (showTable want).replace " " "_" ++
+          [(if tag == "c05-name-capture" then tag else tag ++ "-result-differs") ++ " db=" ++ toString (seed + 1000 * i) ++ " pipeline:" ++ (showTable want).replace " " "_" ++
             " sql:" ++ (showTable got).replace " " "_"]
   | _ => []
 
